@@ -93,6 +93,13 @@ def rule_DC(run: Run) -> RuleResult:
             seen_comp[False] and not seen_comp[True], f, fn.lineno,
             f"Computation present when enabled={seen_comp[False]}, when disabled={seen_comp[True]}",
             "the per-dataset effects toggle must only remove the effect wrapper (C16)")
+    for p in paths:
+        n_cached = p.ret.key().count("New(Cached;")
+        disabled = [c[1] for c in p.conds if "_effects_disabled" in c[0]]
+        res.add(f"labrea.dataset.Dataset._composed[effects_disabled={disabled[0] if disabled else None}]:exactly one cache layer", n_cached == 1, f, fn.lineno,
+                f"{n_cached} Cached nodes in the composed term",
+                "a second cache layer on the same cache object (entries are keyed by options only) stores the raw value before effects/callback ran: "
+                "a failed evaluation then leaves a stored value behind (C12) and hits skip effects inconsistently (C02)")
     res.add("labrea.dataset.Dataset._composed:both alternatives share one calculation", len(applies) == 1, f, fn.lineno,
             f"{len(applies)} distinct calculation terms", "the value must not depend on the effects switch (C16)")
     # the four ops delegate to _composed with the caller's options
@@ -501,6 +508,19 @@ def rule_MX(run: Run) -> RuleResult:
                 pol = not c[1]
         seen[pol] = p.ret.key() if p.ret is not None else None
     want = {True: "call:confectioner.mix(options,Child(options))", False: "call:confectioner.mix(Child(options),options)"}
+    extra_returns = []
+    for p in paths:
+        pol = None
+        for c in p.conds:
+            if c[2] == "Child(force)":
+                pol = c[1]
+            elif c[2] == "unop:Not(Child(force))":
+                pol = not c[1]
+        rk = p.ret.key() if p.ret is not None else None
+        if pol is None or rk != want[pol]:
+            extra_returns.append((pol, rk, [c[0] for c in p.conds]))
+    res.add("labrea.option.WithOptions._options:every path returns the full mix", not extra_returns, f, wo.methods["_options"].lineno,
+            "all returning paths return mix(…) of the two dictionaries" if not extra_returns else f"a path returns {extra_returns[0][1]} under {extra_returns[0][2]} — a shortcut that skips the recursive merge", nec)
     for pol in (True, False):
         ok = seen.get(pol) == want[pol]
         res.add(f"labrea.option.WithOptions._options[force={pol}]:mix order", ok, f, wo.methods["_options"].lineno,
@@ -640,4 +660,8 @@ def rule_TK(run: Run) -> RuleResult:
                         and ast.unparse(ing.key).startswith("f':{") and ".evaluate(" in ast.unparse(ing.value):
                     ok_e = True
     res.add("labrea.template.Template.evaluate:resolves self.template against options mixed with the :name: parameters", ok_e, f, ev.lineno, detail, nec)
+    eps = [p for p in run.paths(t, "evaluate") if p.status == "ret"]
+    bad_r = [p.ret.key()[:80] for p in eps if not p.ret.key().startswith("call:str(call:confectioner.templating.resolve(Child(template),call:confectioner.mix(options,")]
+    res.add("labrea.template.Template.evaluate:every returning path goes through resolve()", bool(eps) and not bad_r, f, ev.lineno,
+            f"{len(eps)} returning paths" if not bad_r else f"a path returns {bad_r[0]} without resolving (escaped braces, parameters and references are then not processed)", nec)
     return res
